@@ -1,5 +1,6 @@
 """C16 - PGP clear-sign removal returns the signed body or the input, and quickly."""
 import multiprocessing as mp
+import os
 import time
 from harness.common import call, Exn
 from harness.gen import texts as G
@@ -311,23 +312,47 @@ def run(ctx):
         # and what is returned for one spelling is what a lone question returns (answers computed at the start of the run)
         if ('remove_signature', t) in by and call(unsign.remove_signature, t) != by[('remove_signature', t)]:
             fails.append((t, 'remove_signature answers %.80r now and %.80r when asked first' % (call(unsign.remove_signature, t), by[('remove_signature', t)])))
-    for nl in ('\n',):
-        for k in range(ctx.n(1500, 15000)):
-            body = 'b%07d' % k
-            if k % 2:
-                t = nl.join(['-----BEGIN PGP SIGNED MESSAGE-----', '', body] + SIGB) + nl
-                want_s, want_r = True, body
-            else:
-                t = ('x' * 200 + nl) + body + nl
-                t = t + 'y' * (len(nl.join(['-----BEGIN PGP SIGNED MESSAGE-----', '', body] + SIGB) + nl) - len(t))
-                want_s, want_r = False, t
-            sg = bool(unsign.is_signed(t))
-            r = unsign.remove_signature(t)
-            st['cases'] += 1
-            if sg is not want_s or r != want_r:
-                fails.append((t, 'one of many texts of the same length, made and dropped one after the other: is_signed %r, returned %.60r' % (sg, r)))
-                break
-            del t
+    # texts of one length, each built by a single allocation after the one before it was dropped, plain and signed in turn
+    # (a loop over the files of a directory does this), in a fresh interpreter whose small heap puts the new text where
+    # the old one lay
+    import subprocess
+    import sys
+    from harness import common as _c
+    code = (
+        "import sys\n"
+        "from debian_inspector import unsign\n"
+        "SIGB = ['-----BEGIN PGP SIGNATURE-----', '', 'iQEzBAEBCgAdFiEE', '=abcd', '-----END PGP SIGNATURE-----']\n"
+        "head = '-----BEGIN PGP SIGNED MESSAGE-----\\n\\n'\n"
+        "tail = '\\n' + '\\n'.join(SIGB) + '\\n'\n"
+        "filler = 'y' * (len(head) + len(tail))\n"
+        "def build(k):\n"
+        "    body = 'b%07d' % k\n"
+        "    if k % 2:\n"
+        "        return ''.join([head, body, tail])\n"
+        "    return ''.join(['Comment: x\\n', body, '\\n', filler[:len(head) + len(tail) - 12]])\n"
+        "same = 0; last = None; wrong = None\n"
+        "for k in range(int(sys.argv[1])):\n"
+        "    t = build(k)\n"
+        "    same += id(t) == last; last = id(t)\n"
+        "    sg = bool(unsign.is_signed(t))\n"
+        "    ok = (unsign.remove_signature(t) == 'b%07d' % k) if k % 2 else (unsign.remove_signature(t) == t)\n"
+        "    if sg is not bool(k % 2) or not ok:\n"
+        "        wrong = (k, sg, ok, t); break\n"
+        "    del t\n"
+        "print(repr((same, wrong)))\n")
+    env = dict(os.environ)
+    env['PYTHONPATH'] = os.path.join(_c.REPO, 'src')
+    r = subprocess.run([sys.executable, '-c', code, str(ctx.n(3000, 30000))], env=env, stdout=subprocess.PIPE, stderr=subprocess.PIPE, text=True, timeout=600)
+    st['cases'] += ctx.n(3000, 30000)
+    if r.returncode != 0:
+        fails.append(('texts of one length in succession', 'the interpreter running them ended with %s' % r.stderr.strip()[-200:]))
+    else:
+        import ast
+        same_place, wrong = ast.literal_eval(r.stdout.strip())
+        st['texts_allocated_where_the_one_before_lay'] = same_place
+        if wrong:
+            k, sg, ok, t = wrong
+            fails.append((t, 'text number %d of many texts of one length, each made after the one before it was dropped: is_signed %r, the text returned is %s' % (k, sg, 'right' if ok else 'wrong')))
     # through the paragraph parser: the flag means "remove the signature, then parse", whatever stands before the envelope
     pp = [w[0] for w in wf[:ctx.n(500, 5000)]]
     pp += [pre + t for t in pp[:200] for pre in ('\n', '\n\n', ' \n', '\r\n')] + nest[:100] + mal[:300]
